@@ -231,7 +231,7 @@ fn start_server(cap: Option<u64>, nmw: u64, oq: Option<usize>) -> Result<Setup, 
     Ok(Setup { sh, rx, modes, addr, tasks: Tasks(vec![task]) })
 }
 
-async fn run_script(cap: Option<u64>, nmw: u64, events: &[Event], setup: Setup, pipe: bool) -> Result<String, String> {
+async fn run_script(cap: Option<u64>, nmw: u64, events: &[Event], setup: Setup, pipe: u8) -> Result<String, String> {
     let Setup { sh, rx, modes, addr, tasks } = setup;
     let (ws, _) = tokio::time::timeout(T_CONN, tt::connect_async_with_config(format!("ws://{addr}/repe"), None, true)).await.map_err(|_| "timeout:raw-connect".to_string())?.map_err(|e| format!("raw-connect:{e}"))?;
     let mut p = Peer { ws, rx, log: vec![], started: HashSet::new(), exited: HashSet::new(), inline_ran: HashSet::new(), sat: 0, pan: 0, other: 0, dead: None };
@@ -245,6 +245,9 @@ async fn run_script(cap: Option<u64>, nmw: u64, events: &[Event], setup: Setup, 
     let mut slow_refusal_ms = 0u64;
     // `pipe`: requests sent ahead in one write (id -> log position at that moment)
     let mut presend: HashMap<u64, usize> = HashMap::new();
+    let mut prereleased: HashSet<u64> = HashSet::new();
+    let mut groups: Vec<Vec<u64>> = Vec::new();   // ids released together, in script order
+    let mut grp: (usize, usize, usize) = (0, 0, 0);   // (log position, panic reports, panics judged so far) of the released group
     let other = |ec: u32| format!("x{}", hx(X_EC_BASE + ec as u64));
 
     for (evi, ev) in events.iter().enumerate() {
@@ -263,12 +266,15 @@ async fn run_script(cap: Option<u64>, nmw: u64, events: &[Event], setup: Setup, 
                         else { let m = &p.log[p.find(from, id).unwrap()]; if m.ec != 0 { other(m.ec) } else if body_is(m, id) { "o".into() } else { format!("x{}", hx(X_BAD_BODY)) } });
                     continue;
                 }
-                let (gtx, grx) = std::sync::mpsc::channel();
-                sh.gates.lock().unwrap_or_else(|e| e.into_inner()).insert(id, grx);
-                rel_tx.insert(id, gtx);
+                // the gate a handler parks on exists before its request can reach the server
+                if !rel_tx.contains_key(&id) && !presend.contains_key(&id) {
+                    let (gtx, grx) = std::sync::mpsc::channel();
+                    sh.gates.lock().unwrap_or_else(|e| e.into_inner()).insert(id, grx);
+                    rel_tx.insert(id, gtx);
+                }
                 // at the cap: this request and the requests that follow it back to back leave in
                 // one write (none of them is read before all are out)
-                if pipe && !notify && !presend.contains_key(&id) && cap.is_some_and(|c| live >= c) {
+                if pipe > 0 && !notify && !presend.contains_key(&id) && (pipe >= 2 || cap.is_some_and(|c| live >= c)) {
                     let from = p.log.len();
                     let mut burst = vec![(id, f.clone())];
                     for e2 in &events[evi + 1..] {
@@ -280,6 +286,11 @@ async fn run_script(cap: Option<u64>, nmw: u64, events: &[Event], setup: Setup, 
                     if burst.len() > 1 {
                         for (id2, f2) in burst {
                             presend.insert(id2, from);
+                            if !rel_tx.contains_key(&id2) {
+                                let (gtx, grx) = std::sync::mpsc::channel();
+                                sh.gates.lock().unwrap_or_else(|e| e.into_inner()).insert(id2, grx);
+                                rel_tx.insert(id2, gtx);
+                            }
                             match tokio::time::timeout(T_CONN, p.ws.feed(WsMsg::Binary(f2))).await { Ok(Ok(())) => {} Ok(Err(e)) => return Err(format!("raw-feed:{e}")), Err(_) => return Err("timeout:raw-feed".into()) }
                         }
                         match tokio::time::timeout(T_CONN, p.ws.flush()).await { Ok(Ok(())) => {} Ok(Err(e)) => return Err(format!("raw-flush:{e}")), Err(_) => return Err("timeout:raw-flush".into()) }
@@ -314,9 +325,33 @@ async fn run_script(cap: Option<u64>, nmw: u64, events: &[Event], setup: Setup, 
             }
             Event::Exit { id, notify, how } => {
                 let (id, notify, how) = (*id, *notify, *how);
-                let (from, pan0) = (p.log.len(), p.pan);
-                let sent = rel_tx.remove(&id).map(|t| t.send(how).is_ok()).unwrap_or(false);
-                if !sent { return Err("badcase:exit-without-parked-handler".into()); }
+                let (mut from, mut pan0) = (p.log.len(), p.pan);
+                // `pipe`: this handler and the ones whose exits follow back to back leave at the same instant
+                if pipe > 0 && !prereleased.contains(&id) {
+                    grp = (from, pan0, 0);
+                    groups.push(Vec::new());
+                    for e2 in &events[evi..] {
+                        match e2 {
+                            Event::Exit { id: id2, how: how2, .. } => {
+                                let sent = rel_tx.remove(id2).map(|t| t.send(*how2).is_ok()).unwrap_or(false);
+                                if !sent { return Err("badcase:exit-without-parked-handler".into()); }
+                                prereleased.insert(*id2);
+                                groups.last_mut().unwrap().push(*id2);
+                            }
+                            _ => break,
+                        }
+                    }
+                }
+                if prereleased.remove(&id) {
+                    // judged from the moment the group was released: replies and panic reports of
+                    // the group may arrive in any order
+                    from = grp.0;
+                    pan0 = grp.1 + grp.2;
+                    if how == Rel::Panic { grp.2 += 1; }
+                } else {
+                    let sent = rel_tx.remove(&id).map(|t| t.send(how).is_ok()).unwrap_or(false);
+                    if !sent { return Err("badcase:exit-without-parked-handler".into()); }
+                }
                 let ok = p.pump(Instant::now() + T_STEP, |p| (if notify { p.exited.contains(&id) } else { p.find(from, id).is_some() }) && (how != Rel::Panic || p.pan > pan0)).await;
                 p.drain();
                 if p.exited.contains(&id) { live = live.saturating_sub(1); }
@@ -325,7 +360,9 @@ async fn run_script(cap: Option<u64>, nmw: u64, events: &[Event], setup: Setup, 
                     else {
                         let m = &p.log[p.find(from, id).unwrap()];
                         if m.ec == 0 { if body_is(m, id) { "v".into() } else { format!("x{}", hx(X_BAD_BODY)) } }
-                        else if m.ec == 9 && p.pan > pan0 { "p".into() }
+                        // InternalError is also a code a handler may return itself (e9): a panic outcome needs the
+                        // scripted panic and its report (the number of reports is compared separately)
+                        else if m.ec == 9 && how == Rel::Panic && p.pan > pan0 { "p".into() }
                         else { format!("e{}", hx(m.ec as u64)) }
                     });
             }
@@ -349,7 +386,17 @@ async fn run_script(cap: Option<u64>, nmw: u64, events: &[Event], setup: Setup, 
     let ran = p.started.len() + p.inline_ran.len();
     if nmw > 0 && ran > 0 && sh.mwc.load(Ordering::SeqCst) == 0 { return Err("harness:middleware-never-ran".into()); }
 
-    let resp: Vec<String> = p.log.iter().map(|m| format!("{}:{}", hx(m.id), hx(m.ec as u64))).collect();
+    // handlers released at the same instant may reply in any order (the property promises none):
+    // within each such group the replies are put into script order, in the positions the group's
+    // replies occupy; every other frame keeps its place
+    let mut seq: Vec<(u64, u32)> = p.log.iter().map(|m| (m.id, m.ec)).collect();
+    for g in &groups {
+        let pos: Vec<usize> = (0..seq.len()).filter(|i| g.contains(&seq[*i].0)).collect();
+        let mut members: Vec<(u64, u32)> = pos.iter().map(|i| seq[*i]).collect();
+        members.sort_by_key(|(id, _)| g.iter().position(|x| x == id).unwrap_or(usize::MAX));
+        for (k, i) in pos.iter().enumerate() { seq[*i] = members[k]; }
+    }
+    let resp: Vec<String> = seq.iter().map(|(id, ec)| format!("{}:{}", hx(*id), hx(*ec as u64))).collect();
     let mut obs = format!("maxrun={} outs={} resp={} sat={} pan={} alive={} modes={} early={}",
         hx(sh.maxg.load(Ordering::SeqCst) as u64),
         if outs.is_empty() { "-".into() } else { outs.join(",") },
@@ -369,7 +416,7 @@ fn run_case(line: &str) -> String {
         Some((cap, ph(f.get("mw")?)?, parse_events(f.get("ev")?)?))
     })();
     let oq = f.get("oq").and_then(|s| ph(s)).map(|q| q as usize);
-    let pipe = f.get("pipe").map(|s| s == "1").unwrap_or(false);
+    let pipe = f.get("pipe").and_then(|s| s.parse::<u8>().ok()).unwrap_or(0);
     let Some((cap, nmw, events)) = parsed else { return "crash=badcase:parse".into() };
     if cap == Some(0) || nmw > 8 { return "crash=badcase:cap-or-mw".into(); }
     let r = guard(move || {
@@ -524,6 +571,25 @@ fn gen_cases(seed: u64, thorough: bool) -> Vec<String> {
         while !s.live.is_empty() { let h = some_how(&mut rng); s.exit(0, h); }
         s.inline(&mut rng, false);
         out.push(format!("{} oq={} pipe=1", s.line((k % 3) as u64), hx(1 + (k as u64 / 2) % 4)));
+    }
+    // bursts into a FREE pool: cap + 2..40 blocking requests leave the client in one write; exactly
+    // the first `cap` are admitted.  Then all handlers leave at the same instant (half of them by
+    // panic) while the outbound queue holds 1..2 messages: every reply still arrives
+    let nb2 = if thorough { 24 } else { 6 };
+    for k in 0..nb2 {
+        let c = 1 + (k % 4) as u64 * 2;      // caps 1, 3, 5, 7
+        let mut s = Script::new(Some(c), 0x800);
+        let extra = if k % 2 == 0 { rng.range(2, 8) } else { rng.range(10, 40) };
+        for _ in 0..(c + extra) { s.park(&mut rng, false); }
+        s.inline(&mut rng, false);
+        let n = s.live.len();
+        for j in 0..n { let h = if j % 2 == 0 { "p" } else { some_how(&mut rng) }; s.exit(0, h); }
+        s.inline(&mut rng, false);
+        for _ in 0..c { s.park(&mut rng, false); }
+        s.park(&mut rng, false);
+        while !s.live.is_empty() { s.exit(0, "p"); }
+        s.inline(&mut rng, false);
+        out.push(format!("{} oq={} pipe=2", s.line((k % 3) as u64), hx(1 + (k as u64) % 2)));
     }
     out.into_iter().enumerate().map(|(i, c)| format!("i={i} {c}")).collect()
 }
